@@ -116,6 +116,7 @@ def cells(tier, seed):
         if deg <= D:
             out.append({"spec": ["sum_interaction_terms"], "fam": "util", "d": D, "deg": deg, "n": n, "shape": 0, "ard": False, "batch": 0, "val": 0,
                         "mode": "full", "path": "fast", "geom": "generic"})
+    out += far_cells()
     return out
 
 
@@ -400,7 +401,46 @@ def reference(cell, ref, bs, x1, x2, order, near=None):
     return outs[0] if not len(bs) else torch.stack(outs)
 
 
+FAR_KERNELS = ["rbf", "matern05", "matern15", "matern25", "rq", "pp0", "pp2", "periodic", "cosine"]
+
+
+def far_cells():
+    # translation-invariant kernels far from the origin, > 25 rows (torch.cdist switches to its matmul formulation there)
+    return [{"fam": "farorigin", "kernel": k, "offset": off, "n": n, "ard": ard} for k in FAR_KERNELS for off in (0.0, 2.0e6)
+            for n in ((30, 28), (26, 40)) for ard in (False, True) if not (ard and k == "cosine")]
+
+
+def run_far(cell, seed):
+    from gpytorch import kernels as GK
+
+    fails = Fails()
+    name, off, (n1, n2), ard = cell["kernel"], cell["offset"], cell["n"], cell["ard"]
+    feats = {"kernel": name, "fam": "farorigin", "offset": off, "n1": n1, "n2": n2, "ard": ard, "mode": "full"}
+    g = util.gen(seed, "c05far|" + util.jdump({k: v for k, v in cell.items() if k != "offset"}))
+    D = 1 if name == "cosine" else 2
+    kw = {"ard_num_dims": D} if ard else {}
+    k = {"rbf": lambda: GK.RBFKernel(**kw), "matern05": lambda: GK.MaternKernel(nu=0.5, **kw), "matern15": lambda: GK.MaternKernel(nu=1.5, **kw),
+         "matern25": lambda: GK.MaternKernel(nu=2.5, **kw), "rq": lambda: GK.RQKernel(**kw), "pp0": lambda: GK.PiecewisePolynomialKernel(q=0, **kw),
+         "pp2": lambda: GK.PiecewisePolynomialKernel(q=2, **kw), "periodic": lambda: GK.PeriodicKernel(**kw), "cosine": lambda: GK.CosineKernel()}[name]()
+    if hasattr(k, "lengthscale") and k.has_lengthscale:
+        k.lengthscale = (0.8 + util.rand(g, 1, D)) if ard else 1.3
+    x1, x2 = util.randn(g, n1, D), util.randn(g, n2, D)
+    with fails.guard("value"), torch.no_grad():
+        want = k(x1, x2).to_dense()       # the kernel is translation invariant: k(x + c, x' + c) = k(x, x')
+        got = k(x1 + off, x2 + off).to_dense()
+        # coordinates of magnitude 2e6 carry an absolute rounding error of ~2e6 eps = 5e-10 in the differences
+        tol = 1e-9 if off == 0.0 else 1e-6
+        ok, msg = util.close(got, want, tol, tol)
+        if not ok:
+            fails.add("value", f"kernel is not translation invariant far from the origin: k(x + c, x' + c) != k(x, x'): err={msg}", f"c = {off}, {n1}x{n2} rows")
+    for f in fails:
+        f["features"] = feats
+    return {"fails": fails, "sig": "far:" + ("ok" if not fails else "mismatch"), "features": feats, "ops": 2}
+
+
 def run_cell(cell, seed):
+    if cell.get("fam") == "farorigin":
+        return run_far(cell, seed)
     spec = cell["spec"]
     name = spec_name(spec)
     fails = Fails()
